@@ -250,6 +250,8 @@ def check(repo: Repo, run: Run) -> None:
     from .c07 import Ctx
     ctx = Ctx(repo)
     interp = ctx.interp
+    from .c04 import actions_get_the_tables
+    actions_get_the_tables(repo, interp)
     seen: Set = set()
     slots_written: Dict = {}
     slots_read: Dict = {}
